@@ -33,7 +33,7 @@ inductive Outcome (α : Type) where
   | part
   | err (e : Error)
   | ub (u : UB)
-  deriving Repr
+  deriving Repr, DecidableEq
 
 namespace Outcome
 def map {α β : Type} (f : α → β) : Outcome α → Outcome β
